@@ -84,13 +84,13 @@ func (f sf) order4() (a, b *big.Int, ok bool) {
 	return nil, nil, false
 }
 
-// g1o is the oracle view of G1: [k]G by double-and-add on a table of [2^i]G.
+// g1o is the oracle view of G1: [k]G as a sum of table entries [j 16^i]G, one per base-16 digit of k.
 type g1o struct {
 	F   *ofield.Fld
 	C   *ocurve.Curve
 	G   ocurve.Pt
 	r   *big.Int
-	tbl []ocurve.Pt
+	tbl [][15]ocurve.Pt
 
 	mu    sync.Mutex
 	cache map[string]kzgs.Pt
@@ -107,26 +107,38 @@ func newG1(in *kzgs.Inst) (*g1o, error) {
 	if !o.C.IsOnCurve(o.G) {
 		return nil, fmt.Errorf("the G1 generator is not on y^2 = x^3 + %s x + %s", in.A, in.B)
 	}
-	o.tbl = make([]ocurve.Pt, in.R.BitLen())
-	o.tbl[0] = o.G
-	for i := 1; i < len(o.tbl); i++ {
-		o.tbl[i] = o.C.Double(o.tbl[i-1])
+	// tbl[i][j-1] = [j 16^i]G, built with the group law only: tbl[i][0] = 16 tbl[i-1][0] by four doublings,
+	// tbl[i][j] = tbl[i][j-1] + tbl[i][0]
+	nw := (in.R.BitLen() + 3) / 4
+	o.tbl = make([][15]ocurve.Pt, nw)
+	base := o.G
+	for i := 0; i < nw; i++ {
+		o.tbl[i][0] = base
+		for j := 1; j < 15; j++ {
+			o.tbl[i][j] = o.C.Add(o.tbl[i][j-1], base)
+		}
+		for k := 0; k < 4; k++ {
+			base = o.C.Double(base)
+		}
 	}
-	// [r]G = O with the generic ladder (independent of the table) and with the table
+	// [r]G = O with the generic ladder (independent of the table) and with the table; a random-looking scalar both ways
 	if rg := o.C.Mul(o.G, in.R); !rg.Inf {
 		return nil, fmt.Errorf("[r]G1 != O in the oracle")
 	}
-	if !o.mulPt(in.R).Inf || !o.C.Eq(o.mulPt(big.NewInt(5)), o.C.Mul(o.G, big.NewInt(5))) {
+	probe := new(big.Int).Rsh(new(big.Int).Mul(in.R, big.NewInt(0x9E3779B9)), 33)
+	if !o.mulPt(in.R).Inf || !o.C.Eq(o.mulPt(probe), o.C.Mul(o.G, probe)) || !o.C.Eq(o.mulPt(big.NewInt(5)), o.C.Mul(o.G, big.NewInt(5))) {
 		return nil, fmt.Errorf("oracle table self-check failed")
 	}
 	return o, nil
 }
 
+// mulPt returns [k]G for 0 <= k < 16^len(tbl), one addition per non-zero base-16 digit.
 func (o *g1o) mulPt(k *big.Int) ocurve.Pt {
 	acc := ocurve.Pt{Inf: true}
-	for i := 0; i < k.BitLen(); i++ {
-		if k.Bit(i) == 1 {
-			acc = o.C.Add(acc, o.tbl[i])
+	for i := 0; 4*i < k.BitLen(); i++ {
+		d := k.Bit(4*i) | k.Bit(4*i+1)<<1 | k.Bit(4*i+2)<<2 | k.Bit(4*i+3)<<3
+		if d != 0 {
+			acc = o.C.Add(acc, o.tbl[i][d-1])
 		}
 	}
 	return acc
@@ -156,7 +168,20 @@ func (o *g1o) mulG(k *big.Int) kzgs.Pt {
 		return p
 	}
 	o.mu.Unlock()
-	p := o.lib(o.mulPt(k))
+	// a neighbour of a known multiple costs one addition
+	var p kzgs.Pt
+	o.mu.Lock()
+	prev, okPrev := o.cache[new(big.Int).Sub(k, one).Text(62)]
+	next, okNext := o.cache[new(big.Int).Add(k, one).Text(62)]
+	o.mu.Unlock()
+	switch {
+	case okPrev && k.Sign() > 0:
+		p = o.lib(o.C.Add(o.pt(prev), o.G))
+	case okNext && new(big.Int).Add(k, one).Cmp(o.r) < 0:
+		p = o.lib(o.C.Sub(o.pt(next), o.G))
+	default:
+		p = o.lib(o.mulPt(k))
+	}
 	o.mu.Lock()
 	if len(o.cache) > 20000 {
 		o.cache = map[string]kzgs.Pt{}
